@@ -219,10 +219,15 @@ def load_known():
         return []
 
 
+CURRENT = None      # the Check under way (main.py turns an unexpected exception into a finding of this check)
+
+
 class Check:
     """One run of one property's check."""
 
     def __init__(self, pid, tier, seed, areas, gen_groups, design_ref=""):
+        global CURRENT
+        CURRENT = self
         self.pid = pid
         self.tier = tier
         self.seed = seed
